@@ -285,7 +285,10 @@ public:
         if (len == 0) return 0;
         if (offset < 0) offset = 0;
         if (len == -1) {
-            return cache_store_->evict(offset, len);
+            // Trim from a page boundary, like the ranged case below: a store opened later
+            // takes its initial size from the media file and trusts a size that is not
+            // page aligned to be the source's size.
+            return cache_store_->evict(offset / pageSize_ * pageSize_, len);
         }
         uint64_t end = photon::sat_add(offset, len);
         if (offset % pageSize_ != 0) offset = offset / pageSize_ * pageSize_;
